@@ -84,10 +84,26 @@ pub fn run_seq(cfg: &Cfg, log: &mut Log) {
                     judge_fail(log, &format!("C13/seq-fail-at/{:?}", s), name, &v,
                         &format!("{:?} of {}: writer fails at byte {} of {}", s, name, k, l), &g, &sink, &clean, &care_k, k < l);
                 }
+                let care_k: Vec<bool> = if care.is_empty() { (0..l).map(|i| i < 37).collect() } else { care.clone() };
+                // transient fault: one rejected write call, later ones accepted
+                let calls = {
+                    let mut p = IoSink::new();
+                    let _ = sr.ser(s, &v, 7, &mut p);
+                    p.data_calls
+                };
+                let step = (calls / 120).max(1);
+                for c in (0..calls).filter(|c| *c < 40 || c % step == 0 || *c + 3 >= calls) {
+                    let mut sink = IoSink::new();
+                    sink.reject_call = Some(c);
+                    let g = sr.ser(s, &v, 7, &mut sink);
+                    log.count("transient_faults", 1);
+                    judge_fail(log, &format!("C13/seq-transient/{:?}", s), name, &v,
+                        &format!("{:?} of {}: writer rejects write call {} of {} once ({} bytes offered after the error)", s, name, c, calls, sink.offered_after_error),
+                        &g, &sink, &clean, &care_k, true);
+                }
                 let mut sink = IoSink::new();
                 sink.flush_fails = true;
                 let g = sr.ser(s, &v, 7, &mut sink);
-                let care_k: Vec<bool> = if care.is_empty() { (0..l).map(|i| i < 37).collect() } else { care.clone() };
                 judge_fail(log, &format!("C13/seq-flush/{:?}", s), name, &v, &format!("{:?}: flush fails", s), &g, &sink, &clean, &care_k, true);
             }
         }
@@ -154,6 +170,22 @@ pub fn run(cfg: &Cfg, log: &mut Log) {
                 let g = rc.root.ser_guarded(&v, &mut sink);
                 judge_fail(log, &format!("C13/fail-split/{}", class), rc.name, &v, &format!("splitting writer fails at byte {}", k), &g, &sink, &clean, &enc.care, k < l);
             }
+            // transient fault: exactly one write call is rejected, later calls would be accepted again
+            {
+                let mut probe = IoSink::new();
+                let _ = rc.root.ser(&v, &mut probe);
+                let calls = probe.data_calls;
+                let cap = if cfg.thorough { 300 } else { 80 };
+                let step = (calls / cap).max(1);
+                for c in (0..calls).filter(|c| *c < 40 || c % step == 0 || *c + 3 >= calls) {
+                    let mut sink = IoSink::new();
+                    sink.reject_call = Some(c);
+                    let g = rc.root.ser_guarded(&v, &mut sink);
+                    log.count("transient_faults", 1);
+                    judge_fail(log, &format!("C13/transient/{}", class), rc.name, &v,
+                        &format!("writer rejects write call {} of {} once ({} bytes offered after the error)", c, calls, sink.offered_after_error), &g, &sink, &clean, &enc.care, true);
+                }
+            }
             // the schema-recording entry point must report the same failures
             {
                 let mut sink = IoSink::new();
@@ -194,13 +226,17 @@ pub fn run(cfg: &Cfg, log: &mut Log) {
             if rc.root.ser_nostd(&v, &mut probe).is_ok() {
                 let calls = probe.writes.len();
                 for c in 0..calls.min(if cfg.thorough { 400 } else { 60 }) {
-                    let mut s = NoStdSink { fail_call: Some(c), ..Default::default() };
-                    log.count("evaluations", 1);
-                    log.count("nostd_fault_calls", 1);
-                    match rc.root.ser_nostd(&v, &mut s) {
-                        Err(Fail::Err(SerErr::Write)) if (0..s.data.len()).all(|i| !enc.care.get(i).copied().unwrap_or(true) || s.data[i] == clean[i]) => {}
-                        other => log.violation("C13", &format!("C13/nostd/{}", class), rc.name, Some(&v),
-                            format!("WriteNoStd sink failing at call {}: {:?}", c, other.map_err(|f| fail_str(&f))), vec![]),
+                    for transient in [false, true] {
+                        let mut s = NoStdSink { fail_call: Some(c), transient, ..Default::default() };
+                        log.count("evaluations", 1);
+                        log.count("nostd_fault_calls", 1);
+                        match rc.root.ser_nostd(&v, &mut s) {
+                            Err(Fail::Err(SerErr::Write)) if s.data.len() <= clean.len()
+                                && (0..s.data.len()).all(|i| !enc.care.get(i).copied().unwrap_or(true) || s.data[i] == clean[i]) => {}
+                            other => log.violation("C13", &format!("C13/nostd/{}", class), rc.name, Some(&v),
+                                format!("WriteNoStd sink failing {} at call {}: {:?} ({} bytes accepted)", if transient { "once" } else { "from" }, c,
+                                    other.map_err(|f| fail_str(&f)), s.data.len()), vec![]),
+                        }
                     }
                 }
                 let mut s = NoStdSink { flush_fails: true, ..Default::default() };
